@@ -602,26 +602,30 @@ example : futSubmit (5/2) true .open_ 0 0 0 = [⟨true, .open_, 2⟩] ∧ futSub
 /-! ### order_target_portfolio -/
 
 /-- **a closing order of `order_target_portfolio` never exceeds the holding of its entry** (repaired: rounding the difference
-to whole lots with `round` used to ask for 200 shares of a 150-share holding) and is a sale -/
+to whole lots with `round` used to ask for 200 shares of a 150-share holding), is a sale and is not for 0 shares -/
 theorem otp_sells_within_holding (value : R) (items : List OtpItem) (i : Nat) :
-    ∀ x ∈ (otpSplit value items i).1, x.1.isBuy = false ∧ ∃ it ∈ items, x.1.qty ≤ it.cur := by
+    ∀ x ∈ (otpSplit value items i).1, x.1.isBuy = false ∧ x.1.qty ≠ 0 ∧ ∃ it ∈ items, x.1.qty ≤ it.cur := by
   induction items generalizing i with
   | nil => intro x hx; simp [otpSplit] at hx
   | cons it rest ih =>
     intro x hx
+    have lift : ∀ x ∈ (otpSplit value rest (i + 1)).1, x.1.isBuy = false ∧ x.1.qty ≠ 0 ∧ ∃ it' ∈ it :: rest, x.1.qty ≤ it'.cur := by
+      intro x hx
+      obtain ⟨h1, h0, it', hit', h2⟩ := ih (i + 1) x hx
+      exact ⟨h1, h0, it', List.mem_cons_of_mem _ hit', h2⟩
     simp only [otpSplit] at hx
     split at hx
-    · obtain ⟨h1, it', hit', h2⟩ := ih (i + 1) x hx
-      exact ⟨h1, it', List.mem_cons_of_mem _ hit', h2⟩
+    · exact lift x hx
     · split at hx
-      · obtain ⟨h1, it', hit', h2⟩ := ih (i + 1) x hx
-        exact ⟨h1, it', List.mem_cons_of_mem _ hit', h2⟩
-      · simp only [List.mem_cons] at hx
-        rcases hx with hx | hx
-        · subst hx
-          exact ⟨rfl, it, List.mem_cons_self, Int.min_le_right _ _⟩
-        · obtain ⟨h1, it', hit', h2⟩ := ih (i + 1) x hx
-          exact ⟨h1, it', List.mem_cons_of_mem _ hit', h2⟩
+      · exact lift x hx
+      · split at hx
+        · exact lift x hx
+        · rename_i hq
+          simp only [List.mem_cons] at hx
+          rcases hx with hx | hx
+          · subst hx
+            exact ⟨rfl, hq, it, List.mem_cons_self, Int.min_le_right _ _⟩
+          · exact lift x hx
 
 /-- every opening order is a buy of a non-zero quantity -/
 theorem otp_buys_nonzero (costV : R → R) (est : R) (ws : List (Nat × OtpItem × Int)) (hws : ∀ w ∈ ws, w.2.2 ≠ 0) :
@@ -646,6 +650,62 @@ theorem otp_buys_nonzero (costV : R → R) (est : R) (ws : List (Nat × OtpItem 
       · subst ho; exact ⟨rfl, hws _ List.mem_cons_self⟩
       · exact ih _ hrest o ho
 
+/-- the buying pass never creates a purchase of a negative quantity (repaired: a negative cash estimate counts as 0; it used to be
+divided by the price and rounded, giving BUY −3900) -/
+theorem roundSig10Rat_nonneg (q : Rat) (h : 0 ≤ q) : 0 ≤ roundSig10Rat q := by
+  unfold roundSig10Rat
+  split_ifs with h0 h1
+  · exact le_refl _
+  · exact absurd h (not_le.2 h1)
+  · exact roundSig10Pos_nonneg q h
+
+theorem decQuot10_nonneg (a b : Rat) (ha : 0 ≤ a) (hb : 0 < b) : 0 ≤ R.decQuot10 a b := by
+  rw [decQuot10_eq_truncI]
+  exact (truncI_spec_nonneg _ (roundSig10Rat_nonneg _ (div_nonneg ha hb.le))).1
+
+theorem roundOrderQty_nonneg (ins : SzIns) (hlot : 0 < ins.lot) (q : R) (hq : 0 ≤ q) : 0 ≤ roundOrderQty ins q := by
+  have hl : (0 : Rat) < R.ofInt ins.lot := by
+    show (0 : Rat) < ((ins.lot : Int) : Rat)
+    exact_mod_cast hlot
+  have h3 : 0 ≤ R.decQuot10 q (R.ofInt ins.lot) * ins.lot := Int.mul_nonneg (decQuot10_nonneg q _ hq hl) hlot.le
+  have h2 : 0 ≤ R.truncI q := (truncI_spec_nonneg q hq).1
+  unfold roundOrderQty
+  split_ifs <;> first | exact h3 | exact h2 | exact Int.le_refl 0
+
+theorem otp_buys_positive (costV : R → R) (est : R) (ws : List (Nat × OtpItem × Int))
+    (hws : ∀ w ∈ ws, 0 < w.2.2 ∧ 0 < w.2.1.last ∧ 0 < w.2.1.ins.lot) :
+    ∀ o ∈ otpBuys costV est ws, o.isBuy = true ∧ 0 < o.qty := by
+  induction ws generalizing est with
+  | nil => intro o ho; simp [otpBuys] at ho
+  | cons w rest ih =>
+    obtain ⟨i, it, d⟩ := w
+    intro o ho
+    have hrest : ∀ w ∈ rest, 0 < w.2.2 ∧ 0 < w.2.1.last ∧ 0 < w.2.1.ins.lot := fun w hw => hws w (List.mem_cons_of_mem _ hw)
+    obtain ⟨hd, hlast, hlot⟩ := hws _ List.mem_cons_self
+    simp only at hd hlast hlot
+    simp only [otpBuys] at ho
+    split at ho
+    · split at ho
+      · exact ih est hrest o ho
+      · rename_i hd2
+        simp only [List.mem_cons] at ho
+        rcases ho with ho | ho
+        · subst ho
+          refine ⟨rfl, ?_⟩
+          have hnn : 0 ≤ roundOrderQty it.ins (R.pymax est 0 / it.last) := by
+            apply roundOrderQty_nonneg _ hlot
+            apply div_nonneg _ hlast.le
+            unfold R.pymax
+            split_ifs with h
+            · exact le_refl _
+            · exact not_lt.1 h
+          exact lt_of_le_of_ne hnn (Ne.symm hd2)
+        · exact ih _ hrest o ho
+    · simp only [List.mem_cons] at ho
+      rcases ho with ho | ho
+      · subst ho; exact ⟨rfl, hd⟩
+      · exact ih _ hrest o ho
+
 /-- the entries waiting to buy carry a positive rounded difference -/
 theorem otp_waiting_positive (value : R) (items : List OtpItem) (i : Nat) :
     ∀ w ∈ (otpSplit value items i).2, 0 < w.2.2 := by
@@ -662,12 +722,14 @@ theorem otp_waiting_positive (value : R) (items : List OtpItem) (i : Nat) :
         rcases hw with hw | hw
         · subst hw; exact hpos
         · exact ih (i + 1) w hw
-      · exact ih (i + 1) w hw
+      · split at hw
+        · exact ih (i + 1) w hw
+        · exact ih (i + 1) w hw
 
-/-- **sells first, then buys; no order of quantity zero on the buying side; no sale beyond a holding** -/
+/-- **sells first, then buys; no order of quantity zero on either side; no sale beyond a holding** -/
 theorem otp_shape (value cash : R) (items : List OtpItem) (costV : R → R) (sellCost : Bool → Int → R → R) :
     ∃ sells buys, orderTargetPortfolio value cash items costV sellCost = sells ++ buys ∧
-      (∀ o ∈ sells, o.isBuy = false ∧ ∃ it ∈ items, o.qty ≤ it.cur) ∧ (∀ o ∈ buys, o.isBuy = true ∧ o.qty ≠ 0) := by
+      (∀ o ∈ sells, o.isBuy = false ∧ o.qty ≠ 0 ∧ ∃ it ∈ items, o.qty ≤ it.cur) ∧ (∀ o ∈ buys, o.isBuy = true ∧ o.qty ≠ 0) := by
   unfold orderTargetPortfolio
   simp only
   refine ⟨_, _, rfl, ?_, ?_⟩
